@@ -285,17 +285,43 @@ func runCase(c *kit.Case, rng *rand.Rand, phase string, reorgFeature bool, early
 				if len(subset) == 0 || len(subset) == len(sc.Cluster) {
 					continue
 				}
+				// Like the validator API, this user rewrites the public key of every duty it is handed
+				// (group key -> its node's public share) and polls again a moment later (the second poll is
+				// answered from the cache).
+				var share eth2p0.BLSPubKey
+				copy(share[:], "verif-c15-foreign-user-public-share-of-this-node")
 				if chance(0.7, "foreign-att", slot, e) {
-					_, _ = h.dutiesCache.AttesterDutiesCache(fctx, eth2p0.Epoch(e), subset)
-					r.Count("foreign_cache_user_fetches", 1)
+					for poll := 0; poll < 2; poll++ {
+						ds, _ := h.dutiesCache.AttesterDutiesCache(fctx, eth2p0.Epoch(e), subset)
+						for _, d := range ds.Duties {
+							if d != nil {
+								d.PubKey = share
+							}
+						}
+						r.Count("foreign_cache_user_fetches", 1)
+					}
 				}
 				if chance(0.5, "foreign-pro", slot, e) {
-					_, _ = h.dutiesCache.ProposerDutiesCache(fctx, eth2p0.Epoch(e), subset)
-					r.Count("foreign_cache_user_fetches", 1)
+					for poll := 0; poll < 2; poll++ {
+						ds, _ := h.dutiesCache.ProposerDutiesCache(fctx, eth2p0.Epoch(e), subset)
+						for _, d := range ds.Duties {
+							if d != nil {
+								d.PubKey = share
+							}
+						}
+						r.Count("foreign_cache_user_fetches", 1)
+					}
 				}
 				if chance(0.5, "foreign-sync", slot, e) {
-					_, _ = h.dutiesCache.SyncCommDutiesCache(fctx, eth2p0.Epoch(e), subset)
-					r.Count("foreign_cache_user_fetches", 1)
+					for poll := 0; poll < 2; poll++ {
+						ds, _ := h.dutiesCache.SyncCommDutiesCache(fctx, eth2p0.Epoch(e), subset)
+						for _, d := range ds.Duties {
+							if d != nil {
+								d.PubKey = share
+							}
+						}
+						r.Count("foreign_cache_user_fetches", 1)
+					}
 				}
 			}
 		}
